@@ -393,7 +393,10 @@ sd2_parse_rsrc_fork (SF_PRIVATE *psf)
 	psf_fread (rsrc.rsrc_data, rsrc.rsrc_len, 1, psf) ;
 
 	/* Reset the header storage because we have changed to the rsrcdes. */
-	psf->header.indx = psf->header.end = rsrc.rsrc_len ;
+	if (rsrc.need_to_free_rsrc_data)
+		psf->header.indx = psf->header.end = 0 ;
+	else
+		psf->header.indx = psf->header.end = rsrc.rsrc_len ;
 
 	rsrc.data_offset = read_rsrc_int (&rsrc, 0) ;
 	rsrc.map_offset = read_rsrc_int (&rsrc, 4) ;
